@@ -93,10 +93,42 @@ pub fn write_replay(prop: &str, seed: u64, f: &Found) -> PathBuf {
     path
 }
 
+/// Re-executes a replay file in a child process under a watchdog: a replay that kills its process
+/// or never returns is a `no_return` violation like the one a worker reports.
+#[cfg(feature = "e1")]
+pub fn replay(path: &str) -> i32 {
+    let Ok(exe) = std::env::current_exe() else { return 2 };
+    let Ok(mut child) = std::process::Command::new(exe).arg("replay-inner").arg(path).spawn() else { return 2 };
+    let start = std::time::Instant::now();
+    let status = loop {
+        match child.try_wait() {
+            Ok(Some(st)) => break Some(st),
+            Err(_) => break None,
+            Ok(None) => {
+                if start.elapsed() > std::time::Duration::from_secs(120) {
+                    let _ = child.kill();
+                    let _ = child.wait();
+                    break None;
+                }
+                std::thread::sleep(std::time::Duration::from_millis(20));
+            }
+        }
+    };
+    match status.and_then(|s| s.code()) {
+        Some(c) if c == 0 || c == 1 || c == 2 => c,
+        other => {
+            let prop = std::fs::read_to_string(path).ok().and_then(|t| serde_json::from_str::<ReplayFile>(&t).ok()).map(|r| r.property).unwrap_or_default();
+            println!("replayed: rule=no_return key=process_killed the replay did not return (killed by the watchdog or the process died: {:?})", other);
+            println!("VIOLATION property={} replay={}", prop, path);
+            1
+        }
+    }
+}
+
 #[cfg(feature = "e1")]
 /// Re-executes a replay file; exit code 1 (and a VIOLATION line) iff the same
 /// rule fires again.
-pub fn replay(path: &str) -> i32 {
+pub fn replay_inner(path: &str) -> i32 {
     let s = match std::fs::read_to_string(path) {
         Ok(s) => s,
         Err(e) => {
